@@ -73,7 +73,7 @@ class SpecPlan(Plan):
 
     def stages(self, tier, nproc):
         named, functions, crashes, notes = {}, {}, [], []
-        tmo = 20000 if tier == "quick" else 120000
+        tmo = 60000 if tier == "quick" else 180000      # per-VC budget (the slowest VC of the unchanged tree needs ~17 s with all cores busy)
         res = common.run_jobs([(t, "spec_function", {"target": t, "timeout_ms": tmo}) for t in RANGE_HELPERS], nproc)
         _merge(res, named, functions, crashes)
         held = []
@@ -130,7 +130,7 @@ class JobsPlan(Plan):
 
     def stages(self, tier, nproc):
         named, functions, crashes, notes = {}, {}, [], []
-        tmo = 20000 if tier == "quick" else 120000
+        tmo = 60000 if tier == "quick" else 180000      # per-VC budget (the slowest VC of the unchanged tree needs ~17 s with all cores busy)
         jobs = [(n, fn, {**kw, "timeout_ms": tmo}) for n, fn, kw in self.jobs]
         _merge(common.run_jobs(jobs, nproc), named, functions, crashes)
         return named, functions, crashes, notes
@@ -420,9 +420,11 @@ def run_property(pid, tier, seed, nproc):
     # candidates (counter-models of the instantiated problem, not confirmed by the quantified solver): a failed obligation only if
     # the obligation is recorded as discharged on the reference tree, otherwise undecided
     baseline = common.load_baseline(pid)
+    # obligations that an open finding of this property names as refuted on the reference tree (by suffix): a candidate for them is that finding
+    listed = [sfx for e in findings if e.get("status") == "finding" and e.get("property") == pid for sfx in e.get("match", {}).get("obligation_suffixes", [])]
     for k, d in named.items():
         if d["status"] == "candidate":
-            d["status"] = "sat" if k in baseline else "unknown"
+            d["status"] = "sat" if (k in baseline or any(k.endswith(x) for x in listed)) else "unknown"
             d["detail"] = {"note": "refuted after instantiation (not confirmed by the quantified solver)" + ("; discharged on the reference tree" if k in baseline else ""),
                            **(d["detail"] if isinstance(d.get("detail"), dict) else {})}
     if os.environ.get("VERIF_TIMING"):
@@ -470,13 +472,6 @@ def run_property(pid, tier, seed, nproc):
             seen.add(key)
             violations.append({"kind": "bounded", "check": f["check"], "concrete": f, "suite": r["suite"],
                                "replay_request": {"suite": r["suite"], "arg": None}})
-    # a refuted obligation without a concrete failing input: look for one with the bounded suite's failures
-    for v in violations:
-        if v["kind"] == "obligation" and not v["concrete"]:
-            for w in violations:
-                if w["kind"] == "bounded":
-                    v["concrete"], v["replay_request"] = w["concrete"], w["replay_request"]
-                    break
 
     # known findings
     reported = []
@@ -488,6 +483,13 @@ def run_property(pid, tier, seed, nproc):
             known.append((hit, v))
         else:
             reported.append(v)
+    # a refuted obligation without a concrete failing input borrows one from the bounded suite's *unlisted* failures (after the findings were
+    # matched: a borrowed input must never decide whether the obligation is a known finding)
+    for v in reported:
+        if v["kind"] == "obligation" and not v["concrete"]:
+            w = next((w for w in reported if w["kind"] == "bounded"), None)
+            if w is not None:
+                v["concrete"], v["replay_request"] = w["concrete"], w["replay_request"]
 
     n_obl = len(own)
     n_ok = sum(1 for d in own.values() if d["status"] == "unsat")
